@@ -214,6 +214,23 @@ def build(spec):
         mp["lambda_"] = 0.5
     mp["fit_turnout_outlier_model"] = False
     mp["fit_margin_outlier_model"] = False
+    if i % 4 == 1 and "baseline_pointer" not in el.config[el.election_id][0]:
+        # extreme spread of the regression weights: a hamlet with one voter next to a metropolis (a retry that
+        # "stabilises" the weights instead of re-using them shows only here)
+        full = [f for f, s_ in status.items() if s_ == "full" and f in set(el.pre.geographic_unit_fips)]
+        if len(full) >= 4:
+            small, big = full[0], full[1]
+            for f, k_ in ((small, None), (big, 3000)):
+                jp = el.pre.index[el.pre.geographic_unit_fips == f][0]
+                jf = feed.index[feed.geographic_unit_fips == f][0]
+                if k_ is None:
+                    el.pre.loc[jp, ["baseline_turnout", "baseline_dem", "baseline_gop"]] = [1, 1, 0]
+                    feed.loc[jf, ["results_turnout", "results_dem", "results_gop"]] = [1, 1, 0]
+                else:
+                    for c_ in ("turnout", "dem", "gop"):
+                        el.pre.loc[jp, f"baseline_{c_}"] = el.pre.loc[jp, f"baseline_{c_}"] * k_
+                        feed.loc[jf, f"results_{c_}"] = feed.loc[jf, f"results_{c_}"] * k_
+            el.meta["extreme_weights"] = True
     return el, feed, status, call
 
 
